@@ -27,16 +27,36 @@ impl<T> AtomicOption<T> {
 
     #[inline]
     pub fn store(&self, t: T) {
+        #[cfg(may_verif)]
+        crate::verif::pt("ao.store", crate::verif::addr(self), 0, 0);
         self.inner.store(Some(t));
+        #[cfg(may_verif)]
+        crate::verif::pt("ao.stored", crate::verif::addr(self), 0, 0);
     }
 
     #[inline]
+    #[cfg_attr(may_verif, allow(unreachable_code))]
     pub fn take(&self) -> Option<T> {
+        #[cfg(may_verif)]
+        {
+            crate::verif::pt("ao.take", crate::verif::addr(self), 0, 0);
+            let r = self.inner.take();
+            crate::verif::pt("ao.took", crate::verif::addr(self), r.is_some() as usize, 0);
+            return r;
+        }
         self.inner.take()
     }
 
     #[inline]
+    #[cfg_attr(may_verif, allow(unreachable_code))]
     pub fn clear(&self) {
+        #[cfg(may_verif)]
+        {
+            crate::verif::pt("ao.clear", crate::verif::addr(self), 0, 0);
+            self.inner.store(None);
+            crate::verif::pt("ao.cleared", crate::verif::addr(self), 0, 0);
+            return;
+        }
         self.inner.store(None)
     }
 }
